@@ -4,8 +4,8 @@
    token stream from the real implementation. *)
 From Coq Require Import String Ascii.
 From Radius Require Import Base.Bytes Base.Guard Base.Res Gen.Consts
-  Model.Attrs Model.Packet Model.Passwords Model.Codecs Model.Client Model.Exchange Model.Dict Model.DictMerge Model.Dispatch Spec.C06 Model.Shutdown Model.ShutdownSched Spec.C05 Spec.C10 Spec.C09 Spec.C01 Spec.C03 Spec.C04 Spec.C11.
-From Radius Require Import Crypto.MD5.
+  Model.Attrs Model.Packet Model.Passwords Model.Codecs Model.Client Model.Exchange Model.Dict Model.DictMerge Model.MSCHAP Spec.C19 Model.Dispatch Spec.C06 Model.Shutdown Model.ShutdownSched Spec.C05 Spec.C10 Spec.C09 Spec.C01 Spec.C03 Spec.C04 Spec.C11.
+From Radius Require Import Crypto.MD5 Crypto.SHA1 Crypto.MD4 Crypto.DES Crypto.UTF16.
 Open Scope list_scope.
 Open Scope nat_scope.
 
@@ -404,6 +404,28 @@ Definition dispatch_merge (name : bytes) (bs : list bytes) (zs : list Z) : optio
     end
   else None.
 
+(* ---- C19 ---- *)
+Definition b5 (bs : list bytes) : bytes := nth 4 bs [].
+Definition dispatch_mschap (name : bytes) (bs : list bytes) (zs : list Z) : option (list tok) :=
+  if name_is name "m.ntresp" then Some [TB (generate_nt_response sha1 md4 utf8_to_utf16le des_encrypt (b1 bs) (b2 bs) (b3 bs) (b4 bs))]
+  else if name_is name "s.ntresp" then Some [TB (rfc_generate_nt_response sha1 md4 utf8_to_utf16le des_encrypt (b1 bs) (b2 bs) (b3 bs) (b4 bs))]
+  else if name_is name "m.authresp" then Some [TB (generate_authenticator_response sha1 md4 utf8_to_utf16le (b1 bs) (b2 bs) (b3 bs) (b4 bs) (b5 bs))]
+  else if name_is name "s.authresp" then Some [TB (rfc_generate_authenticator_response sha1 md4 utf8_to_utf16le (b1 bs) (b2 bs) (b3 bs) (b4 bs) (b5 bs))]
+  else if name_is name "m.chash" then Some [TB (challenge_hash sha1 (b1 bs) (b2 bs) (b3 bs))]
+  else if name_is name "s.chash" then Some [TB (rfc_challenge_hash sha1 (b1 bs) (b2 bs) (b3 bs))]
+  else if name_is name "m.nthash" then Some [TB (nt_password_hash md4 (b1 bs))]
+  else if name_is name "s.nthash" then Some [TB (rfc_nt_password_hash md4 (b1 bs))]
+  else if name_is name "m.utf16" || name_is name "s.utf16" then Some [TB (utf8_to_utf16le (b1 bs))]
+  else if name_is name "m.descrypt7" then Some [TB (Model.MSCHAP.des_crypt des_encrypt (b1 bs) (b2 bs))]
+  else if name_is name "s.descrypt7" then Some [TB (rfc_des_encrypt des_encrypt (b2 bs) (b1 bs))]
+  else if name_is name "m.masterkey" then Some [TB (get_master_key sha1 (b1 bs) (b2 bs))]
+  else if name_is name "s.masterkey" then Some [TB (rfc_get_master_key sha1 (b1 bs) (b2 bs))]
+  else if name_is name "m.startkey" then Some (t_res (get_asymmetric_start_key sha1 (b1 bs) (Z.to_nat (z1 zs)) (nth 1 zs 0 =? 1)%Z) t_bytes)
+  else if name_is name "s.startkey" then Some (t_res_s (spec_get_asymmetric_start_key sha1 (b1 bs) (Z.to_nat (z1 zs)) (nth 1 zs 0 =? 1)%Z) t_bytes)
+  else if name_is name "m.makekey" then Some (t_res (make_key sha1 md4 utf8_to_utf16le (b1 bs) (b2 bs) (z1 zs =? 1)%Z) t_bytes)
+  else if name_is name "s.makekey" then Some (t_res_s (spec_make_key sha1 md4 utf8_to_utf16le (b1 bs) (b2 bs) (z1 zs =? 1)%Z) t_bytes)
+  else None.
+
 Definition dispatch (name : bytes) (bs : list bytes) (zs : list Z) : list tok :=
   if name_is name "m.attrs_run" then run_attrs false bs zs
   else if name_is name "s.attrs_run" then run_attrs true bs zs
@@ -417,7 +439,8 @@ Definition dispatch (name : bytes) (bs : list bytes) (zs : list Z) : list tok :=
   match dispatch_c08 name bs zs with Some t => t | None =>
   match dispatch_dict name bs zs with Some t => t | None =>
   match dispatch_merge name bs zs with Some t => t | None =>
-  [TI (-97)] end end end end end end end end end.
+  match dispatch_mschap name bs zs with Some t => t | None =>
+  [TI (-97)] end end end end end end end end end end.
 
 Require Extraction.
 Require Import ExtrOcamlBasic.
